@@ -30,7 +30,7 @@ def tlc_run(wd, name, maxmsgs, pool, seps, faults, modes=ALL_MODES, uniform=Fals
     return res
 
 
-def run_case(c):
+def run_case(c, decoder=None):
     """Returns None or (signature, detail)."""
     import contextlib
     import io
@@ -50,7 +50,7 @@ def run_case(c):
     errtype = ''
     try:
         with contextlib.redirect_stderr(io.StringIO()):
-            for m in generate_bufr_message(Decoder(), data, info_only=mode['info'], continue_on_error=mode['cont'],
+            for m in generate_bufr_message(decoder or Decoder(), data, info_only=mode['info'], continue_on_error=mode['cont'],
                                            filter_expr=c.get('filter', FILTER) if mode['filt'] else None, **extra):
                 got.append(bytes(m.serialized_bytes))
     except PyBufrKitError as e:
@@ -94,6 +94,29 @@ def run_case(c):
 
 def _work(cs):
     return [run_case(c) for c in cs]
+
+
+def _work_shared(cs):
+    from pybufrkit.decoder import Decoder
+    dec = Decoder()
+    return [run_case(c, decoder=dec) for c in cs]
+
+
+def replay_cases_shared(run, cases, prefix, chunk=60):
+    """The cases of a chunk through ONE Decoder object, in the order given (the caller interleaves modes): what a scan does to
+    the decoder - options of that call, a failure half way through a message - must not reach the next scan."""
+    import multiprocessing as mp
+    from . import fm94
+    chunks = [cases[i:i + chunk] for i in range(0, len(cases), chunk)]
+    if not chunks:
+        return
+    with mp.get_context('fork').Pool(14, initializer=fm94._init_worker) as pool:
+        out = [x for c in pool.map(_work_shared, chunks) for x in c]
+    for c, bad in zip(cases, out):
+        run.traces += 1
+        if bad:
+            run.violation((prefix, 'shared-decoder') + tuple(bad[0]), 'one Decoder for a series of scans: ' + bad[1],
+                          {'kind': 'stream', 'case': c, 'note': 'needs the earlier scans of the series on the same Decoder object'})
 
 
 def replay_cases(run, cases, prefix):
